@@ -30,4 +30,4 @@ Deliver, inside {wt}:
   1. the change applied to the working tree (src/ only; do not edit tests/ or existing files outside src/);
   2. a demonstration program `examples/seed_demo.rs` (uses the public API of the crate `suiron`; prints what it checks; exits 0 / prints OK when the property holds on the case(s) it exercises and panics or exits non-zero when it does not). It must FAIL with your change and PASS without it;
   3. `seed_out/patch.diff` = `git diff -- src` (the change only, not the demo), `seed_out/demo.rs` = a copy of the demo, and `seed_out/meta.json` with the keys "property", "what_it_breaks" (plain description), "needs_to_manifest" (what specific input / sequence is needed), "files" (changed files), "commands_run" (what you ran, with outcomes).
-Before you finish, verify all of it yourself: tests pass with the change (state the summary line); demo exits non-zero with the change; `git stash push -- src`, demo exits 0; `git stash pop`, demo fails again. Leave the change applied in the working tree. In your final message report: the diff, why the tests do not notice, the demo output with and without the change, and the test summary line.''')
+Before you finish, verify all of it yourself: tests pass with the change (state the summary line); demo exits non-zero with the change; `git diff -- src > /tmp/<your worktree name>.patch; git apply -R /tmp/<your worktree name>.patch`, demo exits 0; `git apply /tmp/<your worktree name>.patch`, demo fails again (do NOT use `git stash`: the stash is shared by all worktrees of the repository and other agents work in parallel). Leave the change applied in the working tree. In your final message report: the diff, why the tests do not notice, the demo output with and without the change, and the test summary line.''')
